@@ -141,6 +141,8 @@ def bad_leaf_values(pv, P, pkts):
         if k == 'int':
             n = node['n']
             bads = [256 ** n, (-1 if not node.get('signed') else -(256 ** n) // 2 - 1), None, 'x', 1.5]
+            if v != 0:
+                bads.append(0)      # in range, but a position / alignment / divisor computed from it may fail
             for b in bads:
                 out.append((where + ' int=' + repr(b), put(b)))
         elif k == 'data':
